@@ -286,9 +286,9 @@ class Schema:
 
     # ----------------------------------------------------------- hooks with defaults
     def isinstance_special(self, eng, sv, clsname, st):
-        if clsname in ("Sequence", "Collection", "Mapping") and sv.k in ("seq", "list", "tuple", "set", "dict"):
+        if clsname in ("Sequence", "Collection", "Mapping") and sv.k in ("seq", "list", "tuple", "set", "dict", "mapseq"):
             return z3.BoolVal({"Sequence": sv.k in ("seq", "list", "tuple"), "Collection": True,
-                               "Mapping": sv.k == "dict"}[clsname])
+                               "Mapping": sv.k in ("dict", "mapseq")}[clsname])
         if clsname == "float":
             if sv.k == "val":
                 from .iomodel import is_float
@@ -652,6 +652,8 @@ class Schema:
             return sv_int(a.x)
         if k == "seq":
             return sv_int(z3.Length(a.t))
+        if k == "mapseq":
+            return sv_int(z3.Length(a.x[0].t))
         if k == "dict":
             st.facts.append(Card(a.x[0]) >= 0)
             st.facts.append((Card(a.x[0]) == 0) == (a.x[0] == EmptySet))
@@ -710,6 +712,11 @@ class Schema:
             return self.io.str_method(eng, obj, name, args, kwargs, st)
         if k == "set":
             return self.set_method(eng, obj, name, args, st)
+        if k == "mapseq":
+            if name == "items" and not args:
+                # the pairs (keys[i], vals[i]) in iteration order (iterated in invariant mode, like zip)
+                return SV("zip", x=obj.x)
+            raise Unsupported("mapseq.%s" % name)
         if k == "dict":
             return self.dict_method(eng, obj, name, args, kwargs, st)
         if k == "list":
